@@ -105,7 +105,38 @@ func shortPkg(path, name string) string {
 }
 
 // TypeKey is the canonical printed form of a Go type used in names.
+// unaliasDeep removes alias nodes everywhere in a (small) type expression so
+// that ordered.MapSA and ordered.Map[string,any] print identically.
+func unaliasDeep(t types.Type) types.Type {
+	switch x := t.(type) {
+	case *types.Alias:
+		return unaliasDeep(types.Unalias(x))
+	case *types.Pointer:
+		e := unaliasDeep(x.Elem())
+		if e != x.Elem() {
+			return types.NewPointer(e)
+		}
+	case *types.Slice:
+		e := unaliasDeep(x.Elem())
+		if e != x.Elem() {
+			return types.NewSlice(e)
+		}
+	case *types.Array:
+		e := unaliasDeep(x.Elem())
+		if e != x.Elem() {
+			return types.NewArray(e, x.Len())
+		}
+	case *types.Map:
+		k, e := unaliasDeep(x.Key()), unaliasDeep(x.Elem())
+		if k != x.Key() || e != x.Elem() {
+			return types.NewMap(k, e)
+		}
+	}
+	return t
+}
+
 func (r *Registry) TypeKey(t types.Type) string {
+	t = unaliasDeep(t)
 	s := types.TypeString(t, r.qualifier)
 	s = strings.ReplaceAll(s, "interface{}", "any")
 	return s
